@@ -223,6 +223,7 @@ type c06Case struct {
 	ERSAgeSec int       `json:"ersAgeSec"`
 	Ann       map[string]string `json:"ann,omitempty"`
 	Storm     int       `json:"storm"` // extra syncs with kubelet restarts in between
+	Stint     bool      `json:"stint,omitempty"` // the replica set was the canary before, was superseded for a while and is the canary again
 }
 
 func genC06(r *rand.Rand, tier string, idx int) *World {
@@ -240,7 +241,7 @@ func genC06(r *rand.Rand, tier string, idx int) *World {
 		AutoFailEnabled: bptr(chance(r, 0.75)), AutoFailMaxRestarts: i32(afMax), MaxRestartsDuration: pick(r, "", "2m", "10m", "0s"), CanaryTimeout: pick(r, "", "", "11m", "20m"),
 	}
 	side := chance(r, 0.4)
-	e := &EDSDef{NS: "ns1", Name: "foo", Initial: "A", Templates: map[string]*TemplateDef{"A": {Letter: "A", Side: side}, "B": {Letter: "B", Side: side}}}
+	e := &EDSDef{NS: "ns1", Name: "foo", Initial: "A", Templates: map[string]*TemplateDef{"A": {Letter: "A", Side: side}, "B": {Letter: "B", Side: side}, "C": {Letter: "C", Side: side}}}
 	e.Strategy = StrategyDef{ReconcileFrequency: "10s", Canary: can}
 	w.EDS = []*EDSDef{e}
 	cs := c06Case{ERSAgeSec: pick(r, 5, 60, 500, 655, 661, 665, 1195, 1201, 1300)}
@@ -308,6 +309,7 @@ func genC06(r *rand.Rand, tier string, idx int) *World {
 		cs.Ann["canary-unpaused"] = "false"
 	}
 	cs.Storm = pick(r, 0, 0, 2, 4)
+	cs.Stint = can.CanaryTimeout != "" && chance(r, 0.3)
 	b, _ := json.Marshal(cs)
 	w.Extra["case"] = string(b)
 	w.Cfg = Config{Kubelet: true, KubeletFaults: true, MapOrder: 0, Stall: chance(r, 0.3)}
@@ -340,6 +342,27 @@ func bodyC06(s *Sim) {
 	// the canary replica set ages before the interesting sync (held by a pause so that
 	// elapsed time does not promote it meanwhile)
 	s.userAnnotate(def.NS, def.Name, edsv1.ExtendedDaemonSetCanaryPausedAnnotationKey, "true")
+	if cs.Stint {
+		// B is the canary for eight minutes, is superseded by C for four, and is the canary again:
+		// canaryTimeout counts from the beginning of this second stint
+		if b0 := s.ersByLetter(def, "B"); b0 != nil {
+			bk := types.NamespacedName{Namespace: b0.Namespace, Name: b0.Name}
+			s.RunTask(CtrlEDS, key)
+			s.Advance(11 * time.Second)
+			s.RunTask(CtrlERS, bk)
+			s.Advance(8 * time.Minute)
+			s.userSetTemplate(def.NS, def.Name, "C")
+			s.RunTask(CtrlEDS, key)
+			s.RunTask(CtrlEDS, key)
+			s.Advance(11 * time.Second)
+			s.RunTask(CtrlERS, bk)
+			s.Advance(4 * time.Minute)
+			s.userSetTemplate(def.NS, def.Name, "B")
+			s.RunTask(CtrlEDS, key)
+			s.RunTask(CtrlEDS, key)
+			s.Stats.NonVacuous["C06.second-stint"]++
+		}
+	}
 	s.Advance(time.Duration(cs.ERSAgeSec) * time.Second)
 	s.RunTask(CtrlEDS, key)
 	e := s.Store.GetEDS(def.NS, def.Name)
@@ -365,6 +388,9 @@ func bodyC06(s *Sim) {
 		upd := c.UpdAgo
 		if upd == 0 {
 			upd = c.TransAgo
+		}
+		if cs.Stint && (c.Type == "Canary" || c.Type == "Canary-Paused" || c.Type == "Canary-Failed") {
+			continue // these were written by the real syncs of the two stints
 		}
 		b.Status.Conditions = append(b.Status.Conditions, edsv1ERSCond(c.Type, c.Status, now.Add(-time.Duration(c.TransAgo)*time.Second), now.Add(-time.Duration(upd)*time.Second)))
 	}
